@@ -69,7 +69,7 @@ POOL = {
         ],
         "comment": ["// foo bar", "//", "// OSACA-BEGINX", "// osaca-begin", "//  OSACA-BEGIN now", "// OSACA-END.",
                     "// XOSACA-END", "//OSACA START MARKER", "  // pad  ", "// OSACA", "// END"],
-        "label": [".LBB0_32:", "foo:", "1:", ".L5: // a label with comment"],
+        "label": [".LBB0_32:", "foo:", ".L5: // a label with comment"],
         "directive": [".p2align 6", ".text", ".long 100", ".cfi_startproc", ".byte 1,2", ".byte 0x1f", ".byte 213,3,32,31",
                       ".globl main", ".byte 213", ".byte 31"],
         "blank": ["", "   ", "\t", " \t "],
@@ -120,7 +120,7 @@ WILD = {
         [".L1: // OSACA-BEGIN"], [".L2: // OSACA-END"], [".text // OSACA-BEGIN"], [".byte 213,3,32,31 // OSACA-END"],
         ["mov x1", ".byte 213,3,32,31"], ["mov x1, #111", ".byte foo"], ["mov x1, #222", ".byte 213,bar,32,31"],
         ["mov x1, #111", ".byte"], ["mov x1, #111", ".byte 213,3,32,31,7"], ["mov x1, #111", ".byte 0213,3,32,31"],
-        ["mov x1, #111", ".byte 2_13,3,32,31"], ["mov x1, #111", ".byte 0XD5,0o3,0b100000,31"], ["mov x1, :lo12:foo", ".byte 213,3,32,31"],
+        ["mov x1, #111", ".byte 2_13,3,32,31"], ["mov x1, #111", ".byte 0XD5", ".byte 3,32,31"], ["mov x1, #111", ".byte 0xD5,0x03,32,31"], ["mov x1, :lo12:foo", ".byte 213,3,32,31"],
         ["mov x1, #111", ".byte 213,3,32,31", ".byte .L2-.L1"], ["mov x1, #222", ".byte 213,3,32,31", ".byte zz"],
         ["mov x1, #111.0", ".byte 213,3,32,31"], ["mov x1, #111", ".byte 213,3", ".long 5", ".byte 32,31"],
         ["mov x1, #0x6f", ".byte 0xd5,0x3,0x20,0x1f"], ["mov x1, #0xde", ".byte 0xd5,0x3,0x20,0x1f"],
@@ -366,7 +366,7 @@ def mangle_spec(rng, s):
     """non-canonical and malformed variants of a --lines string"""
     k = rng.randrange(12)
     pos = rng.randrange(len(s) + 1)
-    ins = [" ", "+", "_", "-", ",", ":", "0", "x", "1_0", " 7 ", "--", ",,", "\t", "5-", "-5", "00", "٣"][rng.randrange(16)]
+    ins = [" ", "+", "_", "-", ",", ":", "0", "x", "1_0", " 7 ", "--", ",,", "\t", "5-", "-5", "00"][rng.randrange(16)]
     if k < 7:
         return s[:pos] + ins + s[pos:]
     if k < 9 and s:
